@@ -489,7 +489,21 @@ func (fr *frame) exec(instr ssa.Instruction) cont {
 		in.guardAlloc(fr.get(instr.Len))
 		in.guardAlloc(fr.get(instr.Cap))
 		n := in.concreteInt(fr.get(instr.Len), "make length")
-		c := in.concreteInt(fr.get(instr.Cap), "make capacity")
+		var c int
+		if ct, ok := fr.get(instr.Cap).(*Term); ok && !ct.IsConst() && instr.Len != instr.Cap {
+			// a symbolic capacity next to a separate length is a pre-allocation hint: it has been
+			// checked against the allocation guard above; the slice is created with cap == len and
+			// grows on append (programs that observe cap() are outside)
+			c64 := ct
+			if ct.w < 64 {
+				c64 = in.ts.Sext(ct, 64)
+			}
+			in.panicIf(in.ts.Cmp(OpSlt, c64, in.ts.BV(64, uint64(n))), "makeslice: cap out of range")
+			in.noteAssumption("make([]T, n, c) with a symbolic capacity c: the capacity is treated as a hint (cap == len)")
+			c = n
+		} else {
+			c = in.concreteInt(fr.get(instr.Cap), "make capacity")
+		}
 		if n < 0 || c < n {
 			in.rtPanic("makeslice: len out of range")
 		}
